@@ -149,6 +149,19 @@ def runC16 (fields : List String) (obs : String) : String × String × String :=
        let region := if ok then "-" else if hasBoolLit arms then "C16-D2" else if laterArmFailed then "C16-D3" else "-"
        (model, (if ok then "ok" else "bad:expected " ++ exp), region)
      | _, _ => bad)
+  -- a function whose one parameter is a tuple: the arms are tried in source order against the argument, literals
+  -- (numbers, strings and booleans alike) compare by value, the first arm that matches gives the result
+  | ["fnt", _, v, arms] =>
+    (match pV (toks v), (arms.splitOn ";;").mapM pFArm with
+     | some (src, []), some arms =>
+       let rec go : List (P × E) → Except Err V
+         | [] => .error .noArm
+         | a :: rest => (match matchP false a.1 src [] with
+           | some env => evalE noSelf (env ++ [(nameCode "a", src)]) a.2
+           | none => go rest)
+       let exp := resText (go arms)
+       (exp, (if obs == exp then "ok" else "bad:expected " ++ exp), "-")
+     | _, _ => bad)
   | ["fn", arity, kind, arms, how, args] =>
     (match arity.toNat?, (arms.splitOn ";;").mapM pFArm, (if args.isEmpty then some [] else (args.splitOn ",").mapM pS) with
      | some ar, some arms, some args =>
